@@ -39,12 +39,14 @@ class Rep:
             self.types = {"T0": "sequence<tuple<bool,uint8_t>>", "T1": "sequence<tuple<bool,uint16_t>>"}
             self.raw = {True: enc_known(self.vals["v0"], "T0"), False: u64(1) + b"\x02\x05"}  # bool byte 02: decodable, not canonical
         elif kind == "top":
-            self.types = {"T0": ["foo", "my_custom<thing>"][variant % 2], "T1": "bar"}
+            # (the third: no codec, but only punctuation away from a name that has one)
+            self.types = {"T0": ["foo", "my_custom<thing>", "uint8_t*"][variant % 3], "T1": "bar"}
             self.raw = {True: b"\x01\x02\x03\xff", False: b""}
         elif kind == "reached":
-            self.types = {"T0": ["mapping<string,foo>", "sequence<tuple<uint8_t,foo<bar>>>"][variant % 2], "T1": "bar"}
+            self.types = {"T0": ["mapping<string,foo>", "sequence<tuple<uint8_t,foo<bar>>>", "mapping<string, bool&>"][variant % 3],
+                          "T1": "bar"}
             self.raw = {True: u64(1) + u64(1) + b"k" + b"\xAA\xBB", False: u64(1) + b"\x07\x00\x01"}
-            if variant % 2:
+            if variant % 3 == 1:
                 self.raw = {True: u64(1) + b"\x07\xAA", False: u64(2) + b"\x07\x01\x08"}
         else:
             self.types = {"T0": ["tuple<sequence<bool>,sequence<foo>>", "variant<sequence<bool>,foo>",
@@ -70,8 +72,10 @@ class Rep:
 class TableEnv:
     """one AuxData table 't' at IR or module level, driven through load / save of real files"""
 
-    def __init__(self, gtirb, level, variant):
-        self.g, self.level, self.variant = gtirb, level, variant
+    def __init__(self, gtirb, level, variant, mode="bytes"):
+        # mode "bytes": every save must write the (type name, bytes) the specification requires (C14)
+        # mode "values": after save + load the table has the required type name and decodes to the required value (C01)
+        self.g, self.level, self.variant, self.mode = gtirb, level, variant, mode
         self.ir = None
         self.rep = None
 
@@ -142,7 +146,15 @@ class TableEnv:
                 exp_t = self.rep.types[op["out"]["type"]]
                 if got is None:
                     return {"exc": "TableLost"}
-                if got[0] != exp_t or (exp_b is not None and got[1] != exp_b):
+                if self.mode == "values":
+                    if n == "reload" and op["out"]["bytes"]["val"] != "any":
+                        probe = self.g.IR.load_protobuf_file(io.BytesIO(raw))
+                        t2 = (probe if self.level == "ir" else next(iter(probe.modules))).aux_data["t"]
+                        want = self.rep.vals[op["out"]["bytes"]["val"]]
+                        if t2.type_name != exp_t or t2.data != want:
+                            return {"exc": "ReloadedTableDiffers",
+                                    "msg": {"expected": [exp_t, repr(want)], "observed": [t2.type_name, repr(t2.data)[:200]]}}
+                elif got[0] != exp_t or (exp_b is not None and got[1] != exp_b):
                     return {"exc": "WrongTable", "msg": {"expected": [exp_t, None if exp_b is None else exp_b.hex()],
                                                          "observed": [got[0], got[1].hex()]}}
                 if n == "reload":
@@ -153,6 +165,51 @@ class TableEnv:
                 return "none"   # unconstrained by the property (e.g. EncodeError for an unknown codec)
             return {"exc": type(e).__name__, "msg": str(e)[:200]}
         raise KeyError(n)
+
+
+def _emit(ctx, kinds, max_ops):
+    """TLC prints every transition of the bounded AuxLife model; a synthetic root loads each initial table"""
+    cfg = tlc.render_cfg({"Kinds": kinds, "UpFront": True, "MaxGen": 3, "MaxOps": max_ops},
+                         invariants=["SaveMeetsReq"], action_constraints=["Emit"], view="view")
+    r = tlc.run("AuxLife", cfg, workers=1)
+    if r.errors or r.violation:
+        raise MachineryFailure("AuxLife emit: %s" % (r.errors or [r.violation])[0][:1500])
+    inits = {}
+    recs = []
+    for x in r.records:
+        if x["lvl"] == 1:
+            k = json.dumps(x["pre"], sort_keys=True)
+            if k not in inits:
+                inits[k] = True
+                recs.append({"pre": {"root": True}, "op": {"name": "load", "kind": x["pre"]["kind"],
+                                                           "canon": x["pre"]["raw"]["canon"], "res": "none"},
+                             "post": x["pre"], "lvl": 0})
+    return recs + r.records
+
+
+def values_stage(ctx):
+    """C01 for tables with a history: whatever was done to a loaded table of a supported type (read, changed in
+    place, replaced, given another type name, saved before), save + load gives back its current type name and value"""
+    recs = _emit(ctx, {"known"}, 5 if ctx.quick() else 6)
+    steps = div = 0
+    for level in ("ir", "module"):
+        for variant in range(2):
+            G = replay.Graph(recs, base_keys=None)
+            w = replay.Walker(G, lambda: TableEnv(ctx.gtirb, level, variant, mode="values"), [], seed=ctx.seed,
+                              observable=set(), max_run=50).run()
+            ctx.traces += w.runs
+            ctx.evaluations += w.steps
+            steps += w.steps
+            for v in w.violations:
+                j = v.to_json()
+                j["props"] = ["C01"]
+                j["level"], j["variant"] = level, variant
+                j["signature"] = "auxlife-values:%s" % j["op"]["name"]
+                ctx.violations.append(j)
+                div += 1
+    ctx.stages.append({"stage": "graph-replay", "spec": "AuxLife.tla", "mode": "values after save+load",
+                       "kinds": ["known"], "steps_executed": steps, "divergences": div})
+    ctx.log("AuxLife values replay: %d steps, %d divergences" % (steps, div))
 
 
 def run(ctx):
@@ -175,25 +232,9 @@ def run(ctx):
         if not up and r.violation is None:
             raise MachineryFailure("AuxLife: the known counterexample of the reach-only design was not found (vacuity)")
         ctx.log("mc AuxLife UpFront=%s: %d states, invariants %s" % (up, r.distinct, "hold" if r.violation is None else "violated (expected for this design)"))
-    cfg = tlc.render_cfg({"Kinds": KINDS, "UpFront": True, "MaxGen": 3, "MaxOps": 5 if ctx.quick() else 6},
-                         invariants=["SaveMeetsReq"], action_constraints=["Emit"], view="view")
-    r = tlc.run("AuxLife", cfg, workers=1)
-    if r.errors or r.violation:
-        raise MachineryFailure("AuxLife emit: %s" % (r.errors or [r.violation])[0][:1500])
-    # every behaviour starts with its own load: prepend a synthetic root
-    inits = {}
-    recs = []
-    for x in r.records:
-        if x["lvl"] == 1:
-            k = json.dumps(x["pre"], sort_keys=True)
-            if k not in inits:
-                inits[k] = True
-                recs.append({"pre": {"root": True}, "op": {"name": "load", "kind": x["pre"]["kind"],
-                                                           "canon": x["pre"]["raw"]["canon"], "res": "none"},
-                             "post": x["pre"], "lvl": 0})
-    recs += r.records
+    recs = _emit(ctx, KINDS, 5 if ctx.quick() else 6)
     for level in ("ir", "module"):
-        for variant in range(3 if not ctx.quick() else 2):
+        for variant in range(3):
             G = replay.Graph(recs, base_keys=None)
             w = replay.Walker(G, lambda: TableEnv(ctx.gtirb, level, variant), [], seed=ctx.seed, observable=set(),
                               max_run=50).run()
